@@ -252,3 +252,48 @@ ob("C13", "K3.input_eval", {"nvals": R(1, 3), "target_kind": R(0, 1), "nargs": R
    assumes=["shim: eval in cdd.compound.sync_properties runs the real builtin outside the tracer (CrossHair's eval model drops the namespace of an exec-mode code object); the evaluated module is a concrete constant"],
    bound="--input-eval with a concrete constant list of 1..3 strings (eval is the explicit opt-in); target = class attribute or parameter of a function/method "
          "(1..3 parameters, any defaults, self/cls/none, any index): own name kept, Literal[...] received, nothing else changes (solver-enumerated shapes)")(sync_eval)
+
+
+# K4: several nodes of the output file answer to the same dotted path (version-switch twins, nested namesake, re-annotation): exactly ONE changes ----------
+DUP_SRC = (
+    "X = 1\n\nif X:\n    class K(object):\n        a0: str = 's0'\n        b: int = 1\nelse:\n    class K(object):\n        a0: str = 's0'\n        b: int = 2\n\nY = 2\n",
+    "X = 1\n\nclass K(object):\n    a0: str = 's0'\n\n    class K(object):\n        a0: str = 'inner'\n\n    b: int = 1\n\nY = 2\n",
+    "X = 1\n\nclass K(object):\n    a0: str = 's0'\n    b: int = 1\n    a0: str = 'again'\n\nY = 2\n",
+    "X = 1\n\ntry:\n    class K(object):\n        a0: str = 's0'\nexcept ImportError:\n    class K(object):\n        a0: str = 's1'\n\nY = 2\n",
+)
+
+
+def sync_dup(kind, has_value, wrap, from_param):
+    from cdd.compound.sync_properties import sync_property
+    from cdd.shared.source_transformer import ast_parse
+
+    src = DUP_SRC[0]
+    for k in range(1, len(DUP_SRC)):
+        if kind == k:
+            src = DUP_SRC[k]
+    if from_param:
+        in_src, in_path = "def h(other, a0: int%s):\n    pass\n" % (" = 5" if has_value else ""), "h.a0"
+    else:
+        in_src, in_path = "class C(object):\n    a0: int%s\n" % (" = 5" if has_value else ""), "C.a0"
+    input_ast, output_ast, before = ast_parse(in_src, filename="<in>"), ast_parse(src, filename="<out>"), ast.parse(src)
+    try:
+        out = sync_property(False, in_path, input_ast, "<in>", "K.a0", "Optional[{output_param}]" if wrap else None, output_ast)
+    except (AssertionError, NotImplementedError) as e:
+        return "sync_property refused a valid request: %s: %s" % (type(e).__name__, e)
+    stmts = lambda mod: [n for n in ast.walk(mod) if isinstance(n, (ast.AnnAssign, ast.Assign, ast.arg)) and not isinstance(getattr(n, "value", None), ast.arg)]
+    s0, s1 = [_dump(n) for n in stmts(before)], [ast.unparse(n) for n in stmts(out)]
+    s0t = [ast.unparse(n) for n in stmts(before)]
+    if len(s0t) != len(s1):
+        return "number of statements changed: %r -> %r" % (s0t, s1)
+    changed = [i for i in range(len(s1)) if s0t[i] != s1[i]]
+    if len(changed) != 1:
+        return "%d statements changed (exactly the selected one must): %r -> %r" % (len(changed), s0t, s1)
+    want = "a0: %s" % ("Optional[int]" if wrap else "int")
+    if s1[changed[0]] != want and not s1[changed[0]].startswith(want + " = "):
+        return "selected attribute renders as %r, expected %r" % (s1[changed[0]], want)
+    return ""
+
+
+ob("C13", "K4.duplicate_paths", {"kind": R(0, len(DUP_SRC) - 1), "has_value": BOOL, "wrap": BOOL, "from_param": BOOL}, T=300, tpath=60, funcs=FUNCS,
+   bound="output modules in which several nodes answer to the dotted path K.a0 (class defined in both branches of an if/else or try/except, nested namesake class, "
+         "attribute annotated twice): exactly one statement of the file changes and it becomes the input property")(sync_dup)
